@@ -91,7 +91,7 @@ fn run_case(seed: u64, lean: &mut Lean, hist: &mut BTreeMap<String, u64>, sample
             let d = dump_ks(&l.handle).map_err(|e| ("impl-vs-oracle", format!("{what}: keyspace {n}: {e}")))?;
             if &d != &refm[n] { return Err(("impl-vs-oracle", format!("{what}: content of keyspace {n} is {} but the reference map has {}", pairs_str(&d), pairs_str(&refm[n])))); }
             let m = lean.ask(&format!("db.abs {}", l.id));
-            if m != pairs_str(&d) { return Err(("model-vs-impl", format!("{what}: keyspace {n} (id {}): model {m} vs real {}", l.id, pairs_str(&d)))); }
+            if !no_model() && m != pairs_str(&d) { return Err(("model-vs-impl", format!("{what}: keyspace {n} (id {}): model {m} vs real {}", l.id, pairs_str(&d)))); }
         }
         Ok(())
     };
@@ -124,7 +124,7 @@ fn run_case(seed: u64, lean: &mut Lean, hist: &mut BTreeMap<String, u64>, sample
                 let ks = match dbref!().keyspace(n, KeyspaceCreateOptions::default) { Ok(k) => k, Err(e) => fail!("impl-vs-oracle", "keyspace({n}) failed: {e:?}") };
                 trace.push(format!("keyspace {n} -> id {}", ks.id()));
                 let m = lean.ask(&format!("db.createks {n}"));
-                if m != format!("id={}", ks.id()) { fail!("model-vs-impl", "keyspace({n}): model {m} vs real id {}", ks.id()); }
+                if !no_model() && m != format!("id={}", ks.id()) { fail!("model-vs-impl", "keyspace({n}): model {m} vs real id {}", ks.id()); }
                 if !existed {
                     // an id may be handed out again once nothing on disk refers to it; what matters is that the
                     // new keyspace is empty and stays isolated (checked through the reference maps)
@@ -272,7 +272,7 @@ fn run_case(seed: u64, lean: &mut Lean, hist: &mut BTreeMap<String, u64>, sample
                     use fjall::AbstractTree;
                     let p = live[n].handle.tree.get_highest_persisted_seqno();
                     let rep = lean.ask(&format!("db.lowerpersisted {} {}", live[n].id, p.map(|x| x.to_string()).unwrap_or("none".into())));
-                    if rep != "ok" { fail!("model-vs-impl", "observed highest persisted seqno {p:?} after major_compact breaks the model's physical assumption (a live value above it): {rep}"); }
+                    if !no_model() && rep != "ok" { fail!("model-vs-impl", "observed highest persisted seqno {p:?} after major_compact breaks the model's physical assumption (a live value above it): {rep}"); }
                 }
                 trace.push(format!("major_compact {n}"));
                 *hist.entry("major-compact".into()).or_insert(0) += 1;
@@ -387,7 +387,7 @@ fn run_case(seed: u64, lean: &mut Lean, hist: &mut BTreeMap<String, u64>, sample
         // after every op: journal count relation with the model
         let st = lean.ask("db.state");
         let mj = st.split("journals=").nth(1).and_then(|s| s.split(' ').next()).and_then(|s| s.parse::<usize>().ok()).unwrap_or(0);
-        if mj != dbref!().journal_count() {
+        if !no_model() && mj != dbref!().journal_count() {
             fail!("model-vs-impl", "journal count: model {mj} vs real {} ({st})", dbref!().journal_count());
         }
         if mode == "c12" || r.chance(1, 4) {
